@@ -1627,6 +1627,22 @@ func c19RunReq(ctx context.Context, sess map[string]*c19Sess, c c19ReqCase, n in
 		tee, path, call = s.cli, "roots", func() { s.ss.ListRoots(ctx, nil) }
 	case "CallToolResult":
 		emitTool(&CallToolResult{Content: pickList([]Content(nil), []Content{}, oneText).([]Content)}, "content")
+	case "CallToolResult+structured", "CallToolResult+structuredArr", "CallToolResult+structuredMeta", "CallToolResult+isError", "CallToolResult+structured+isError":
+		// a raw handler (Server.AddTool) that fills other members of the result and leaves Content as the case says
+		res := &CallToolResult{Content: pickList([]Content(nil), []Content{}, oneText).([]Content)}
+		switch strings.TrimPrefix(c.Type, "CallToolResult+") {
+		case "structured":
+			res.StructuredContent = map[string]any{"answer": 42}
+		case "structuredArr":
+			res.StructuredContent = []any{1, 2, 3}
+		case "structuredMeta":
+			res.Meta, res.StructuredContent = Meta{"k": "v"}, json.RawMessage(`{"a":[]}`)
+		case "isError":
+			res.IsError = true
+		case "structured+isError":
+			res.IsError, res.StructuredContent = true, map[string]any{"error": "boom"}
+		}
+		emitTool(res, "content")
 	case "GetPromptResult":
 		one := []*PromptMessage{{Role: "user", Content: &TextContent{Text: "x"}}}
 		s.mu.Lock()
